@@ -1,5 +1,13 @@
 (* parse_main.ml: evaluates the extracted Model/Parse on the observations of
    harness vh_parse (C06). *)
+(* a changed implementation may differ on every case: print the first few hundred
+   differences only (all are counted) *)
+let diff_budget = ref 300
+let diff0 = diff
+let diff field ~model ~impl =
+  if !diff_budget > 0 then begin decr diff_budget; diff0 field ~model ~impl end
+  else begin failed_here := true; incr n_diff end
+
 let str = string_of_bytes
 
 type obs = Perr of string | Pok of (string * string) list * (string * string) list
